@@ -14,7 +14,8 @@ using namespace OP2Utility;
 const char* const PROP_ID = "C17";
 
 namespace {
-const char* pool[] = {"a.txt", "A.TXT", "b.dat", "B.dat", "c", "readme.TXT", "d.txt", "trk1", "TRK1", "e.map", "a.TXT", "song", "x_y.bmp", "X_Y.BMP"};
+// ".a.txt" / "..b.dat" begin with dots that are NOT a "./" prefix: they must never be confused with "a.txt" / "b.dat"
+const char* pool[] = {"a.txt", "A.TXT", "b.dat", "B.dat", "c", "readme.TXT", "d.txt", "trk1", "TRK1", "e.map", "a.TXT", "song", "x_y.bmp", "X_Y.BMP", ".a.txt", "..b.dat"};
 const size_t poolN = sizeof pool / sizeof pool[0];
 
 struct Arch { std::string file; bool isVol; bool loaded; std::vector<std::string> names; std::vector<std::vector<uint8_t>> data; unsigned unusedSlots = 0; uint32_t unusedFill = 0; };
@@ -43,7 +44,7 @@ Layout gen_layout(Tape& t, unsigned serial) {
 		std::vector<std::string> names;
 		for (unsigned k = 0; k < nm; ++k) {
 			std::string n = pool[t.below(poolN)];
-			if (!a.isVol) { n = n.substr(0, n.find('.')); if (n.size() > 8) n.resize(8); }
+			if (!a.isVol) { n = n.substr(0, n.find('.')); if (n.size() > 8) n.resize(8); if (n.empty()) continue; }
 			bool clash = false; for (auto& e : names) if (dups ? false : refvol::ieq(e, n)) clash = true;
 			if (!clash) names.push_back(n);
 		}
@@ -84,7 +85,7 @@ void archive_laws(Archive::ArchiveFile& ar, const Arch& a, Tape& t0, Stats& st) 
 	}
 	for (int k = 0; k < 6; ++k) {
 		std::string base = t.below(4) == 0 ? "nope.bin" : std::string(pool[t.below(poolN)]);
-		if (!a.isVol && t.flag()) base = base.substr(0, base.find('.'));
+		if (!a.isVol && t.flag()) { base = base.substr(0, base.find('.')); if (base.empty()) base = "c"; }
 		std::string q = volgen::case_variant(base, t.u64()); if (t.below(3) == 0) q = "./" + q;
 		bool has = ar.Contains(q);
 		size_t idx = 0; Out o = guarded([&] { idx = ar.GetIndex(q); });
@@ -124,7 +125,7 @@ void manager_case(const Layout& L, Tape& t0, Stats& st, bool subdirs) {
 	for (int qn = 0; qn < 20; ++qn) {
 		std::string base;
 		switch (t.below(6)) { case 0: base = "missing.txt"; break; case 1: base = subdirs ? "7/a.txt" : "a.txt"; break; default: base = pool[t.below(poolN)]; break; }
-		if (t.below(4) == 0) base = base.substr(0, base.find('.') == std::string::npos ? base.size() : base.find('.'));
+		if (t.below(4) == 0) { base = base.substr(0, base.find('.') == std::string::npos ? base.size() : base.find('.')); if (base.empty()) base = "c"; }
 		std::string q = t.flag() ? volgen::case_variant(base, t.u64()) : base; if (t.below(3) == 0) q = "./" + q;
 		bool access = t.below(4) != 0;
 		std::unique_ptr<Stream::BidirectionalReader> s;
@@ -208,7 +209,7 @@ void run_sweep(Stats& st) {
 		if (where == 0 || where == 3) L.loose[n] = content_for("loose", n, 1);
 		if (where >= 1) { Arch a; a.isVol = true; a.loaded = true; a.file = "1.vol"; a.names = {volgen::case_variant(n, 5)}; a.data = {content_for("1.vol", n, 2)}; L.archs.push_back(a); }
 		if (where >= 2) { Arch a; a.isVol = true; a.loaded = true; a.file = "2.vol"; a.names = {volgen::case_variant(n, 10)}; a.data = {content_for("2.vol", n, 3)}; L.archs.push_back(a);
-			Arch c; c.isVol = false; c.loaded = true; c.file = "3.clm"; c.names = {nclm}; c.data = {content_for("3.clm", nclm, 4)}; L.archs.push_back(c); }
+			if (!nclm.empty()) { Arch c; c.isVol = false; c.loaded = true; c.file = "3.clm"; c.names = {nclm}; c.data = {content_for("3.clm", nclm, 4)}; L.archs.push_back(c); } }
 		for (unsigned v = 0; v < 6; ++v) { for (size_t i = 0; i < tp.size(); ++i) tp[i] = uint8_t((i * 37 + v * 11 + pi) & 0xFF); Tape t(tp); manager_case(L, t, st, v & 1); }
 	}
 	st.exhaustive = true;
